@@ -7,6 +7,7 @@ import glob, json, os, re, shutil, sys
 ROOT = os.path.dirname(os.path.dirname(os.path.abspath(__file__)))
 EXCLUDE = {"C02-m3": "re-associated sum: not a violation of the property in exact arithmetic (DESIGN 12.4)",
            "C02-m9": "re-associated partial min/max reduction: differs only when a NaN sits between the elements (no order there), not a violation of the property as stated (DESIGN 12.5)",
+           "C02-m10": "reduce_partial_max as a balanced tree with swapped operands: differs from the left fold only when a NaN (or a tie between -0.0 and +0.0) sits between the elements - no order there, same class as C02-m9; not a violation of the property as stated",
            "C15-m7": "led to genuine defect D10; after the repair (stable quadratic roots, 544bfbf) the change is harmless and its demonstration passes"}
 AUDIT = {}
 ap = os.path.join(ROOT, "audit", "results.json")
